@@ -26,14 +26,14 @@ def touched (st : St) : Actor → Env → List Sock
   | .u c, e => (match uSock (st.upc c) with | some s => [s] | none => []) ++
                (match e with | .start s _ | .delTimer s | .del s => [s] | _ => [])
   | .k i, _ => (match st.kpc i with
-      | .start s _ _ | .set s _ _ _ | .store s _ _ | .load s _ _ | .reg s _ | .xtake s => [s]
+      | .start s _ _ | .set s _ _ _ | .store s _ _ | .load s _ _ | .reg s _ | .xtake s | .own s | .ownDis s _ => [s]
       | .take s => s :: (match st.slot s with | some c => waitSock st c | none => [])
       | .dis s c => s :: waitSock st c
       | _ => [])
   | .w i, e => (match st.wpc i, e with
       | .idle, .deliver s _ => [s]
       | .idle, .fire t => (match st.tm t with | .armed s => [s] | _ => [])
-      | .sTake s, _ | .sDis s _, _ | .xtake s, _ => [s]
+      | .sTake s, _ | .sDis s _, _ | .xtake s, _ | .fOr s _, _ => [s]
       | .fTake s _, _ => s :: (match st.slot s with | some c => waitSock st c | none => [])
       | _, _ => [])
   | .env, e => (match e with | .arrive s | .edge s => [s] | _ => [])
@@ -80,6 +80,10 @@ theorem frame_k (st st' : St) (k : Kt) (e : Env) (j : Sock) (hs : kstep st k (st
   | xor c => crunchF
   | xio c => crunchF
   | xtake s => crunchF
+  | reg0 s c r => crunchF
+  | chk2 s c => crunchF
+  | own s => crunchF
+  | ownDis s c => crunchF
 
 set_option maxHeartbeats 8000000 in
 theorem frame_w (st st' : St) (w : Wk) (e : Env) (j : Sock) (hs : wstep st w (st.wpc w) e = some st')
@@ -90,6 +94,7 @@ theorem frame_w (st st' : St) (w : Wk) (e : Env) (j : Sock) (hs : wstep st w (st
   | idle => cases e <;> crunchF
   | sTake s => crunchF
   | sDis s c => crunchF
+  | fOr s t => crunchF
   | fTake s t => crunchF
   | xio c => crunchF
   | xtake s => crunchF
